@@ -1148,6 +1148,9 @@ class Interp:
                 raise Violation('vector subscript %d outside [0, %d)' % (ix, len(obj.items)), fn.loc(e))
             self.derefs += 1
             return LV(obj.items, ix)
+        if short in ('insert', 'push_back') and args and isinstance(args[-1], LV) and args[-1].box is obj.items:
+            # the value is a REFERENCE to an element of this very vector: insert / push_back may move the storage before they copy from it
+            raise Violation('%s(.., v) is handed a reference to an element of the vector it may reallocate: the value is read from the old, freed block' % short, fn.loc(e))
         if short == 'insert' and len(a) == 2:
             it, v = a
             if not isinstance(it, It) or it.vec is not obj:
